@@ -27,6 +27,16 @@ impl IsInRange for i64 {
     }
 }
 
+impl IsInRange for f64 {
+    fn is_in_integer_range(&self) -> bool {
+        *self >= (MIN_INTEGER as Self) && *self <= (MAX_INTEGER as Self)
+    }
+
+    fn is_in_long_range(&self) -> bool {
+        *self >= (MIN_LONG as Self) && *self <= (MAX_LONG as Self)
+    }
+}
+
 pub trait FitToType {
     fn fit_to_type(self) -> Variant;
 }
@@ -61,8 +71,11 @@ impl FitToType for f32 {
         let has_fraction = diff.abs() > 0.0001;
         if has_fraction {
             Variant::VSingle(self)
-        } else {
+        } else if (self.round() as f64).is_in_long_range() {
             (self.round() as i64).fit_to_type()
+        } else {
+            // too big for an integer type, do not go through i64 which would saturate
+            Variant::VDouble(self as f64)
         }
     }
 }
@@ -73,8 +86,11 @@ impl FitToType for f64 {
         let has_fraction = diff.abs() > 0.0001;
         if has_fraction {
             Variant::VDouble(self)
-        } else {
+        } else if self.round().is_in_long_range() {
             (self.round() as i64).fit_to_type()
+        } else {
+            // too big for an integer type, do not go through i64 which would saturate
+            Variant::VDouble(self)
         }
     }
 }
